@@ -5,11 +5,19 @@
   previous token ends an operand (`৫-১`, `ক[০]-১`, `(ক)-১`: number, string, identifier, boolean, `)`
   or `]`), and a negative literal otherwise; blanks of every kind produce no token and only a
   newline moves the line counter; a comment is one token that the parser drops at every statement
-  start.  That two layouts of one token sequence print the same is decided metamorphically by the
-  C11 check (six layouts per program); the general `tokenize_unlex` theorem is not closed yet.
+  start.  **Relayout theorems** (second half of the file): the tokenizer is local — a step depends only on
+  the characters it consumes and on whether the next one continues the token (`consume_cut`) — hence at
+  every token boundary a blank, or a run of blanks of any kind, can be inserted, removed or exchanged
+  without changing any token (`blank_insertion`, `blank_run_insertion`, `blank_run_relayout`); for
+  space, tab and CR the token lists are equal outright, so the whole pipeline (print, final state, error
+  with its line) is unchanged (`pipeline_blank_insertion`).  That a newline moves only line numbers
+  *through the parser and interpreter*, and comment insertion between statements, are decided
+  metamorphically by the C11 check (six layouts per program).
 -/
 import Pakhi.Lemmas.Lexer
+import Pakhi.Lemmas.Relayout
 import Pakhi.Model.Parser
+import Pakhi.Model.Interp
 
 namespace Pakhi
 namespace C11
@@ -67,6 +75,90 @@ theorem comment_inert (ctx : PCtx) (f : Nat) (t : Token) (rest : List Token) (pr
   simp [pStatement, ht, PS.adv]
 
 example : isNumeric '১' = true := by decide
+
+/-- the end of `s1` is a token boundary of the source `s1 ++ s2`: the tokenizer, started at line 1 with no
+    previous token, takes whole steps that end exactly at the end of `s1` (so no string, comment, number, word or
+    two-character operator straddles the position) -/
+def Boundary (file s1 s2 : Str) : Prop := Cuts file s2 s1 1 false
+
+/-- **inserting a blank at a token boundary changes no token**: kinds, lexemes, files and the outcome (token list or
+    lexical error) are the same; only line numbers may move (they do when the blank is a newline).  Read from right
+    to left it is the removal clause: a blank may be removed wherever the position is still a boundary without it
+    (the two neighbours do not fuse) -/
+theorem blank_insertion (file s1 s2 : Str) (b : Char) (hb : isBlank b = true) (hcut : Boundary file s1 s2) :
+    stripRes (tokenize (s1 ++ b :: s2) file) = stripRes (tokenize (s1 ++ s2) file) :=
+  relayout_at_boundary file s1 s2 (b :: s2) (Or.inr ⟨b, s2, rfl, hb⟩) hcut
+    (fun fuel fuel' line acc h1 h2 => blank_run_tail file [b] s2 (by simpa using hb) fuel fuel' line acc h1 h2)
+
+/-- the same for a run of blanks of any length and any mixture of space, tab, CR and newline -/
+theorem blank_run_insertion (file s1 s2 bs : Str) (hbs : ∀ b ∈ bs, isBlank b = true) (hcut : Boundary file s1 s2) :
+    stripRes (tokenize (s1 ++ (bs ++ s2)) file) = stripRes (tokenize (s1 ++ s2) file) := by
+  cases bs with
+  | nil => rfl
+  | cons b bs =>
+    exact relayout_at_boundary file s1 s2 (b :: bs ++ s2) (Or.inr ⟨b, bs ++ s2, rfl, hbs b (by simp)⟩) hcut
+      (fun fuel fuel' line acc h1 h2 => blank_run_tail file (b :: bs) s2 hbs fuel fuel' line acc h1 h2)
+
+/-- **amount and kind of whitespace between two tokens do not matter**: a non-empty run of blanks that starts at a
+    token boundary can be replaced by any other non-empty run (this holds also where the neighbours would fuse
+    without a separator, e.g. two words) -/
+theorem blank_run_relayout (file s1 s2 bs bs' : Str) (hbs : ∀ b ∈ bs, isBlank b = true) (hbs' : ∀ b ∈ bs', isBlank b = true)
+    (hne' : bs' ≠ []) (hcut : Boundary file s1 (bs ++ s2)) :
+    stripRes (tokenize (s1 ++ (bs' ++ s2)) file) = stripRes (tokenize (s1 ++ (bs ++ s2)) file) := by
+  obtain ⟨b', tl', rfl⟩ : ∃ b' tl', bs' = b' :: tl' := by cases bs' with | nil => exact absurd rfl hne' | cons b t => exact ⟨b, t, rfl⟩
+  refine relayout_at_boundary file s1 (bs ++ s2) (b' :: tl' ++ s2) (Or.inr ⟨b', tl' ++ s2, rfl, hbs' b' (by simp)⟩) hcut ?_
+  intro fuel fuel' line acc h1 h2
+  have a := blank_run_tail file (b' :: tl') s2 hbs' (s2.length + 1) fuel' line acc (by omega) h2
+  have b := blank_run_tail file bs s2 hbs (s2.length + 1) fuel line acc (by omega) h1
+  rw [a, b]
+
+/-- a boundary stays a boundary when the text after it is replaced by text starting with a blank -/
+theorem boundary_after_insertion (file s1 s2 : Str) (b : Char) (hb : isBlank b = true) (hcut : Boundary file s1 s2) :
+    Boundary file s1 (b :: s2) :=
+  cuts_sameStop file s2 (b :: s2) (Or.inr ⟨b, s2, rfl, hb⟩) s1 1 false hcut
+
+/-- for a blank that is not a newline nothing at all changes: the two token lists are *equal*, line numbers included -/
+theorem blank_insertion_exact (file s1 s2 : Str) (b : Char) (hb : b = ' ' ∨ b = '\t' ∨ b = '\r') (hcut : Boundary file s1 s2) :
+    tokenize (s1 ++ b :: s2) file = tokenize (s1 ++ s2) file := by
+  have hbl : isBlank b = true := by rcases hb with rfl | rfl | rfl <;> decide
+  have hnl : b ≠ '\n' := by rcases hb with rfl | rfl | rfl <;> decide
+  refine loop_cut file s2 (b :: s2) (Or.inr ⟨b, s2, rfl, hbl⟩) (fun a c => a = c) ?_ s1 1 false hcut _ _ [] rfl (by omega) (by omega)
+  intro fuel fuel' line acc h1 h2
+  obtain ⟨g, rfl⟩ : ∃ g, fuel' = g + 1 := ⟨fuel' - 1, by simp at h2; omega⟩
+  rw [blank_step file g b s2 line acc hbl]
+  simp only [hnl, if_false, Nat.add_zero]
+  exact tokenizeLoop_fuel file fuel g s2 line acc h1 (by simp at h2; omega)
+
+/-- the whole pipeline of the model: tokenize, parse (with module loading), run -/
+def pipeline (ctx : PCtx) (pf : Nat) (mode : GcMode) (fuel : Nat) (w : World) (src : Str) : Res St :=
+  match tokenize src ctx.mainPath with
+  | .ok toks =>
+    match parse ctx pf toks with
+    | .ok prog => runLoop prog mode fuel 0 prog (St.init w)
+    | .err e => .err e
+    | .panic s => .panic s
+    | .fuel => .fuel
+  | .err e => .err e
+  | .panic s => .panic s
+  | .fuel => .fuel
+
+/-- **whole-program corollary**: inserting (or removing) a space, tab or CR at a token boundary changes neither the
+    printed text, nor the final state, nor the error (message, file *and* line) — for every program, every world,
+    every collection schedule -/
+theorem pipeline_blank_insertion (ctx : PCtx) (pf : Nat) (mode : GcMode) (fuel : Nat) (w : World) (s1 s2 : Str) (b : Char)
+    (hb : b = ' ' ∨ b = '\t' ∨ b = '\r') (hcut : Boundary ctx.mainPath s1 s2) :
+    pipeline ctx pf mode fuel w (s1 ++ b :: s2) = pipeline ctx pf mode fuel w (s1 ++ s2) := by
+  unfold pipeline
+  rw [blank_insertion_exact ctx.mainPath s1 s2 b hb hcut]
+
+/-- non-vacuity: in `৫-১` the position after `৫` is a boundary (so `৫ -১`, `৫\t-১`, … have the same tokens);
+    and so is the position after `৫-` -/
+example : Boundary [] ['৫'] ['-', '১'] := .step (t? := some ⟨.num _, ['৫'], 1, []⟩) (n := 1) (l := 0) (by rfl) (by decide) (.done _ _)
+
+example : Boundary [] ['৫', '-'] ['১'] :=
+  .step (t? := some ⟨.num _, ['৫'], 1, []⟩) (n := 1) (l := 0) (by rfl) (by decide)
+    (.step (t? := some ⟨.minus, ['-'], 1, []⟩) (n := 1) (l := 0) (by rfl) (by decide) (.done _ _))
+
 
 end C11
 end Pakhi
